@@ -213,3 +213,130 @@ func (c *Ctx) checkLoopControl(r *Report, rule string) {
 	}
 	r.Floor(rule, 3)
 }
+
+// checkLoopCarriedValues: rule C01.R11, what a loop keeps from one iteration to the next is a value.
+//
+// The loop forms remember the value of the last iteration (lastEval) to return it when the loop ends or
+// breaks. evalInternal hands back an object.Reference for a variable of an outer scope: kept as is, it is
+// dereferenced when the loop returns, after later iterations changed the variable
+// (x=0; func f(){for i=5 {x=x+1; if i==3 {break}; x}}; f() gave 4). In package eval, in every function that
+// calls evalInternal inside a cycle, no Object-typed value carried around that cycle (a phi of the loop
+// header fed by a back edge) may be a Reference: object.Value (or any other cleaner of C01.R8) comes first.
+func (c *Ctx) checkLoopCarriedValues(r *Report, rule string) {
+	evalInternal := c.SSAFn(c.Fn("eval", "State.evalInternal"))
+	t := NewTaint(c, c.referenceSpec())
+	objT := c.TypeNamed("object", "Object")
+	n := 0
+	for _, fn := range c.ModuleSSAFuncs() {
+		if fn.Pkg == nil || shortPkg(fn.Pkg.Pkg) != "eval" {
+			continue
+		}
+		inCycle := false
+		eachInstr(fn, func(in ssa.Instruction) {
+			if call, ok := in.(*ssa.Call); ok && call.Common().StaticCallee() == evalInternal && blockReaches(call.Block(), call.Block()) {
+				inCycle = true
+			}
+		})
+		if !inCycle {
+			continue
+		}
+		fname := ssaFuncName(fn)
+		for _, b := range fn.Blocks {
+			for _, in := range b.Instrs {
+				phi, ok := in.(*ssa.Phi)
+				if !ok {
+					break
+				}
+				if !types.Identical(phi.Type(), objT) {
+					continue
+				}
+				back := false
+				bad := ""
+				for i, e := range phi.Edges {
+					if !b.Dominates(b.Preds[i]) {
+						continue
+					}
+					back = true
+					if t.May(e) && !(t.spec.CleanAt != nil && t.spec.CleanAt(e, lastInstr(b.Preds[i]))) {
+						bad = e.Name()
+					}
+				}
+				if !back {
+					continue
+				}
+				// only a value that can survive an iteration in which something was evaluated matters: a back edge
+				// that brings the phi itself back, from a block reached through a call of evalInternal in the cycle
+				// (evalStatements overwrites its result whenever it evaluates a statement: not concerned)
+				survives := false
+				var canBe func(v ssa.Value, depth int) bool
+				canBe = func(v ssa.Value, depth int) bool {
+					if v == ssa.Value(phi) {
+						return true
+					}
+					if depth > 4 {
+						return false
+					}
+					if p2, ok := v.(*ssa.Phi); ok {
+						for _, e2 := range p2.Edges {
+							if canBe(e2, depth+1) {
+								return true
+							}
+						}
+					}
+					return false
+				}
+				for i, e := range phi.Edges {
+					if !b.Dominates(b.Preds[i]) || !canBe(e, 0) {
+						continue
+					}
+					for _, cb := range fn.Blocks {
+						hasEval := false
+						for _, x := range cb.Instrs {
+							if call, ok := x.(*ssa.Call); ok && call.Common().StaticCallee() == evalInternal {
+								hasEval = true
+							}
+						}
+						if hasEval && reachesWithout(b, cb, nil) && reachesWithout(cb, b.Preds[i], b) {
+							survives = true
+						}
+					}
+				}
+				if !survives {
+					continue
+				}
+				n++
+				desc := "loop-carried value " + phi.Comment
+				r.Check(bad == "", rule, fname, desc, c.Pos(fn.Pos()),
+					"the value kept from one iteration to the next ("+bad+") can be an object.Reference: it is dereferenced when the loop returns, after later iterations changed the variable, so the loop yields a value no iteration produced")
+			}
+		}
+	}
+	if n < 3 {
+		r.Undecided("%s: only %d loop-carried object values found in the evaluator's loops", rule, n)
+	}
+	r.Floor(rule, 3)
+}
+
+// reachesWithout: a path from block a to block b (a == b counts) that does not enter block avoid.
+func reachesWithout(a, b, avoid *ssa.BasicBlock) bool {
+	if a == b {
+		return true
+	}
+	seen := map[*ssa.BasicBlock]bool{a: true}
+	stack := []*ssa.BasicBlock{a}
+	for len(stack) > 0 {
+		x := stack[len(stack)-1]
+		stack = stack[:len(stack)-1]
+		for _, s := range x.Succs {
+			if s == avoid || seen[s] {
+				continue
+			}
+			if s == b {
+				return true
+			}
+			seen[s] = true
+			stack = append(stack, s)
+		}
+	}
+	return false
+}
